@@ -160,7 +160,7 @@ def kruskal_length(D):
 # ------------------------------------------------------------------ oracle
 
 
-def judge(R, what, klass, pts, D, t, bf, k, excl, want_pid, mst_len):
+def judge(R, what, klass, pts, D, t, bf, k, excl, want_pid, mst_len, rel=1e-9):
     """pts[0] is the soma / first point.  Returns the parent map (by input index) or None."""
     n = len(pts)
     ctx = lambda: f"{what} points={pts if n <= 8 else str(pts[:3]) + '...'}"  # noqa: E731
@@ -189,7 +189,7 @@ def judge(R, what, klass, pts, D, t, bf, k, excl, want_pid, mst_len):
     # minimum spanning tree length
     if bf == 0 and k == -1:
         length = sum(D[i][got[i]] for i in range(1, n) if got[i] != -1)
-        R.check(abs(length - mst_len) <= 1e-9 * max(1.0, mst_len), "not-minimum-length",
+        R.check(abs(length - mst_len) <= rel * max(1.0, mst_len), "not-minimum-length",
                 lambda: f"{ctx()}: total length {length:.9f}, minimum spanning tree {mst_len:.9f}; parents={got if n <= 12 else '...'}", f"{klass}:mst-length")
     # balancing factor / greedy rule
     if want_pid is not None:
@@ -408,7 +408,7 @@ def check_cloud(case, R):
             R.outcome(n, max(sum(1 for q in got if q == i) for i in range(n)), round(sum(D[i][got[i]] for i in range(1, n)), 6))
 
 
-def greedy_np(D, bf, k, excl):
+def greedy_np(D, bf, k, excl, tie=None):
     """The reference construction of `greedy`, evaluated with array operations (float64) for the size sweep; same tie rule."""
     A = np.asarray(D, dtype=np.float64)
     n = A.shape[0]
@@ -434,7 +434,7 @@ def greedy_np(D, bf, k, excl):
         best = float(flat[a])
         if flat.size > 1:
             second = float(np.partition(flat, 1)[1])
-            if second - best < TIE * max(1.0, best):
+            if second - best < (TIE if tie is None else tie) * max(1.0, best):
                 return None, "tie"
         i, j = int(ri[a // len(ci)]), int(ci[a % len(ci)])
         pid[j] = i
@@ -481,6 +481,55 @@ def check_size(case, R):
             R.outcome(ci, n // 32)
 
 
+FAR_N = (5, 12, 40)
+FAR_K = tuple(range(0, 19))
+FAR_CONFIGS = [("mst", 0.0, -1, True, "first", "float32"), ("mst", 0.0, -1, True, "soma32", "float32"), ("cuntz", 0.5, -1, True, "first", "float32"),
+               ("cuntz", 0.0, 2, True, "first", "float64"), ("cuntz", 1.0, 3, False, "soma32", "float32")]
+
+
+def dyadic_cloud(n, k):
+    """n distinct points with coordinates that are multiples of 1/32 inside a 30-unit box, shifted by (2^k, -2^k, 2^k): exact in
+    float32 for k <= 18, so the cloud is congruent to the unshifted one."""
+    g = _lcg(9000 + n)
+    pts, seen = [], set()
+    while len(pts) < n:
+        q = tuple(round(next(g) * 30 * 32) / 32 for _ in range(3))
+        if q not in seen:
+            seen.add(q)
+            pts.append(q)
+    off = (2.0 ** k, -(2.0 ** k), 2.0 ** k)
+    out = [tuple(c + d for c, d in zip(q, off)) for q in pts]
+    for q in out:
+        assert all(float(np.float32(c)) == c for c in q), "harness: far cloud is not exact in float32"
+    return out
+
+
+def check_far(case, R):
+    """Single-precision clouds far from the origin (exactly representable): the tree is judged on the exact point positions."""
+    from swcgeom.transforms import PointsToCuntzMST, PointsToMST
+
+    n, k, ci = int(case[0]), int(case[1]), int(case[2])
+    cls, bf, lim, excl, mode, dt = FAR_CONFIGS[ci]
+    pts = dyadic_cloud(n, k)
+    R.state(n, k, ci)
+    D = dist_matrix(pts)
+    mst_len = kruskal_length(D) if bf == 0 and lim == -1 else 0.0
+    want, why = greedy_np(D, bf, lim, excl, tie=1e-4)  # a float32 evaluation may resolve closer calls either way
+    if want is None:
+        R.skip(f"reference-{why}")
+    arr = np.array(pts, dtype=np.float32 if dt == "float32" else np.float64)
+    P, soma = (arr, None) if mode == "first" else (arr[1:], arr[0].copy())
+    what = f"{cls}(bf={bf}, furcations={lim}, exclude_soma={excl}) on {n} {dt} points around (2^{k}, -2^{k}, 2^{k}), soma {mode}"
+    if cls == "mst":
+        ok, t = R.impl("PointsToMST", lambda: PointsToMST(lim, exclude_soma=excl)(P, soma))
+    else:
+        ok, t = R.impl("PointsToCuntzMST", lambda: PointsToCuntzMST(bf=bf, furcations=lim, exclude_soma=excl)(P, soma))
+    if ok:
+        got = judge(R, what, "far", pts, D, t, bf, lim, excl, want, mst_len, rel=1e-5)
+        if got:
+            R.outcome(ci, n, k >= 10)
+
+
 def spaces(tier, seed):
     q = tier == "quick"
     m_hi = 5 if q else 6
@@ -519,6 +568,9 @@ def spaces(tier, seed):
                     yield (n, ci)
 
     return [
+        Space.of("far-float32-clouds", lambda: ((n, k, ci) for n in (FAR_N if q else FAR_N + (100,)) for k in FAR_K for ci in range(len(FAR_CONFIGS))), check_far,
+                 bounds={"points": list(FAR_N if q else FAR_N + (100,)), "placement": "(2^k, -2^k, 2^k), every k in 0..18; coordinates multiples of 1/32 (exact in float32)",
+                         "configurations": [list(c) for c in FAR_CONFIGS]}),
         Space.of("sizes", gen_sizes, check_size, case_timeout=600.0,
                  bounds={"cloud_sizes": f"every n in 2..{size_hi}" + ("" if q else " and 765..771, 1021..1027"), "configurations": [list(c) for c in SIZE_CONFIGS],
                          "note": "both plain-MST configurations (soma first / soma given, i.e. n and n-1 input rows) at every size; the three balanced / limited "
